@@ -1,29 +1,593 @@
+// zminichain: runnable demonstration of the shared fixtures verif/minichain and verif/txkit (NOT a property check).
+//
+//	/verif/check zminichain            both storage modes: 3 blocks with every supported transaction kind, replica
+//	                                   equality, mempool round trip, restart, crash-state restart
+//	/verif/check zminichain -writes    additionally prints the write units of one Commit (kv.Recorder)
+//	/verif/check zminichain -bench     additionally prints measured costs
+//
+// Exit 0 when everything behaved as documented in harness/minichain/README.md, 2 otherwise.
 package main
 
 import (
+	"bytes"
+	"flag"
 	"fmt"
 	"math/big"
+	"os"
+	"sort"
+	"strings"
+	"time"
 
+	"verif/kv"
 	"verif/minichain"
+	"verif/txkit"
 
+	cfg "github.com/lianxiangcloud/linkchain/config"
 	"github.com/lianxiangcloud/linkchain/libs/common"
+	dbm "github.com/lianxiangcloud/linkchain/libs/db"
+	"github.com/lianxiangcloud/linkchain/libs/log"
+	"github.com/lianxiangcloud/linkchain/types"
 )
 
-func main() {
-	for _, trie := range []bool{false, true} {
-		c, err := minichain.New(minichain.Options{IsTrie: trie, Alloc: []minichain.Alloc{{Addr: common.HexToAddress("0x1"), Balance: big.NewInt(1e18)}}})
-		if err != nil {
-			panic(err)
+var (
+	flagWrites = flag.Bool("writes", false, "print the write units of one Commit")
+	flagBench  = flag.Bool("bench", false, "print measured costs")
+	failed     = false
+)
+
+func fail(f string, a ...interface{}) {
+	failed = true
+	fmt.Printf("  FAIL: "+f+"\n", a...)
+}
+
+func check(ok bool, f string, a ...interface{}) {
+	if !ok {
+		fail(f, a...)
+	}
+}
+
+func must(err error) {
+	if err != nil {
+		fmt.Println("HARNESS-ERROR:", err)
+		os.Exit(2)
+	}
+}
+
+func short(h common.Hash) string { return h.Hex()[:12] }
+
+func mode(trie bool) string {
+	if trie {
+		return "trie"
+	}
+	return "flat"
+}
+
+// same compares everything two replicas must agree on after a block.
+func same(c, r *minichain.Chain, what string) {
+	check(c.Height() == r.Height(), "%s: heights %d / %d", what, c.Height(), r.Height())
+	check(c.StateHash() == r.StateHash(), "%s: state hash %s / %s", what, short(c.StateHash()), short(r.StateHash()))
+	check(c.ReceiptHash() == r.ReceiptHash(), "%s: receipt hash differs", what)
+	check(c.StateRoot() == r.StateRoot(), "%s: state root differs", what)
+	check(c.LoadBlock(c.Height()).Hash() == r.LoadBlock(r.Height()).Hash(), "%s: block hash differs", what)
+	check(c.Status().Equals(r.Status()), "%s: consensus status differs", what)
+	a, b := c.AllAccounts(), r.AllAccounts()
+	check(len(a) == len(b), "%s: %d / %d accounts", what, len(a), len(b))
+	for addr, x := range a {
+		y, ok := b[addr]
+		if !ok || x.Balance.Cmp(y.Balance) != 0 || x.Nonce != y.Nonce || len(x.Tokens) != len(y.Tokens) || len(x.Storage) != len(y.Storage) {
+			fail("%s: account %s differs", what, addr.Hex())
 		}
-		for i := 0; i < 3; i++ {
-			b, err := c.Step(nil)
-			if err != nil {
-				panic(err)
+	}
+	check(c.MaxUtxoOutputSeq() == r.MaxUtxoOutputSeq(), "%s: utxo sequence differs", what)
+}
+
+// world is one storage mode's run; the summary lines of the two modes must be identical.
+type world struct {
+	trie    bool
+	c       *minichain.Chain
+	kit     *txkit.Kit
+	led     *txkit.Ledger
+	summary []string
+}
+
+func (w *world) note(f string, a ...interface{}) {
+	s := fmt.Sprintf(f, a...)
+	w.summary = append(w.summary, s)
+	fmt.Println("  " + s)
+}
+
+func (w *world) step(txs types.Txs, what string) *types.Block {
+	b, err := w.c.Step(txs)
+	if err != nil {
+		fail("%s: Step: %v", what, err)
+		must(err)
+	}
+	same(w.c, w.c.Attached(), what)
+	w.led.Sync(w.c)
+	rs := w.c.Receipts(b.Height)
+	okN := 0
+	for _, r := range rs {
+		if r.Status == types.ReceiptStatusSuccessful {
+			okN++
+		}
+	}
+	w.note("block %d %s: %d txs, %d successful receipts, gas %d, state %s, receipts %s, hidden %s", b.Height, what, len(b.Data.Txs), okN,
+		w.c.LastTxsResult().GasUsed, short(w.c.StateHash()), short(w.c.ReceiptHash()), w.led.Unspent(common.EmptyAddress))
+	return b
+}
+
+func run(trie bool) *world {
+	fmt.Printf("== storage mode %s ==\n", mode(trie))
+	A, B, C, D := txkit.A, txkit.B, txkit.C, txkit.D
+	tokenUnits := txkit.LKC(1000)
+	opts := minichain.Options{IsTrie: trie, Alloc: txkit.AllocWithToken(nil, txkit.GenesisToken, tokenUnits)}
+	var rec *kv.Recorder
+	if *flagWrites {
+		rec = kv.NewRecorder()
+		opts.NewDB = func(name string) dbm.DB { return rec.DB(name) }
+	}
+	c, err := minichain.New(opts)
+	must(err)
+	ropts := opts
+	ropts.NewDB = nil
+	r, err := minichain.New(ropts)
+	must(err)
+	c.Attach(r)
+	w := &world{trie: trie, c: c, kit: txkit.NewKit(7), led: txkit.NewLedger()}
+	initial := c.Supply()[common.EmptyAddress]
+	w.note("genesis: state %s, supply %s, %d accounts", short(c.StateHash()), initial, len(c.AllAccounts()))
+
+	// ---- block 1: account-side kinds + account -> confidential + multi-signature account --------------------
+	storeInit, revertInit, sdInit, logInit := txkit.StoreContract(), txkit.RevertContract(), txkit.SelfDestructContract(), txkit.LogContract()
+	issuerInit := txkit.TokenIssuerContract(txkit.LKC(500))
+	storeAddr, revertAddr := txkit.ContractAddress(A.Addr, 2, storeInit), txkit.ContractAddress(A.Addr, 3, revertInit)
+	sdAddr, logAddr := txkit.ContractAddress(A.Addr, 4, sdInit), txkit.ContractAddress(A.Addr, 5, logInit)
+	issuerAddr := txkit.ContractAddress(A.Addr, 6, issuerInit)
+	ain, err := w.kit.AccountToUTXO(B, 0, []txkit.Dest{txkit.ToWallet(txkit.W0, 0, txkit.LKC(300)), txkit.ToWallet(txkit.W0, 1, txkit.LKC(200)), txkit.ToWallet(txkit.W1, 0, txkit.LKC(100))}, nil)
+	must(err)
+	var signers []txkit.ValidatorSigner
+	for _, k := range c.Fixture().Keys[:3] { // 3 of 4 equal validators: > 2/3
+		signers = append(signers, txkit.SignerOf(k))
+	}
+	mst := txkit.MultiSign(0, types.TxContractCreateType, 20, []*types.SignerEntry{{Power: 10, Addr: A.Addr}, {Power: 10, Addr: B.Addr}}, signers)
+	b1 := types.Txs{
+		txkit.Transfer(A, 0, B.Addr, txkit.LKC(10)),
+		txkit.TokenTransfer(A, 1, txkit.GenesisToken, C.Addr, big.NewInt(12345)),
+		txkit.Create(A, 2, storeInit, nil),
+		txkit.Create(A, 3, revertInit, nil),
+		txkit.Create(A, 4, sdInit, txkit.LKC(5)),
+		txkit.Create(A, 5, logInit, nil),
+		txkit.Create(A, 6, issuerInit, nil),
+		ain,
+		mst,
+	}
+	w.step(b1, "account kinds, A->U, multisign")
+	check(bytes.Equal(c.Code(storeAddr), txkit.StoreRuntime) && bytes.Equal(c.Code(issuerAddr), txkit.TokenIssuerRuntime), "contracts not deployed")
+	check(c.Balance(sdAddr).Cmp(txkit.LKC(5)) == 0, "self-destruct contract endowment %s", c.Balance(sdAddr))
+	check(c.TokenBalance(A.Addr, issuerAddr).Cmp(txkit.LKC(500)) == 0, "issued at creation: %s", c.TokenBalance(A.Addr, issuerAddr))
+	check(c.TokenBalance(C.Addr, txkit.GenesisToken).Cmp(new(big.Int).Add(tokenUnits, big.NewInt(12345))) == 0, "token transfer")
+	check(c.Nonce(types.MultiSignNonceAddr) == 1, "multisign nonce %d", c.Nonce(types.MultiSignNonceAddr))
+	check(c.TxService().GetMultiSignersInfo(types.TxContractCreateType) != nil, "signer table not installed")
+	check(len(w.led.Spendable(txkit.W0)) == 2 && len(w.led.Spendable(txkit.W1)) == 1, "ledger scan: %d/%d", len(w.led.Spendable(txkit.W0)), len(w.led.Spendable(txkit.W1)))
+	check(c.MaxUtxoOutputSeq() == 2, "utxo sequence %d", c.MaxUtxoOutputSeq())
+
+	// ---- block 2: calls, issue, confidential spend (ring 1), upgrade ---------------------------------------------
+	c.Track(D.Addr) // the self-destruct beneficiary is only visible to contract code
+	spend1, err := w.kit.Transfer(w.led, txkit.W0, w.led.Spendable(txkit.W0)[:1], 1, []txkit.Dest{txkit.ToWallet(txkit.W2, 0, txkit.LKC(50))}, 2)
+	must(err)
+	ain2, err := w.kit.AccountToUTXO(C, 0, []txkit.Dest{txkit.ToWallet(txkit.W1, 1, txkit.LKC(70)), txkit.ToWallet(txkit.W2, 2, txkit.LKC(30))}, nil)
+	must(err)
+	cut := txkit.Upgrade(A, 13, cfg.ContractFoundationAddr, append(append([]byte{}, txkit.WasmMagic...), 1, 0, 0, 0), A, B)
+	balA := c.Balance(A.Addr)
+	b2 := types.Txs{
+		txkit.Call(A, 7, storeAddr, nil, txkit.Word(big.NewInt(42))),
+		txkit.Call(A, 8, revertAddr, txkit.LKC(1), nil),
+		txkit.Call(A, 9, sdAddr, nil, txkit.AddrWord(D.Addr)),
+		txkit.Call(A, 10, logAddr, nil, txkit.Word(big.NewInt(0xbeef))),
+		txkit.Call(A, 11, issuerAddr, nil, txkit.Word(txkit.LKC(250))),
+		txkit.TokenTransfer(A, 12, issuerAddr, B.Addr, txkit.LKC(100)),
+		cut,
+		spend1,
+		ain2,
+	}
+	blk2 := w.step(b2, "calls, revert, selfdestruct, log, issue, upgrade, U->U ring 1")
+	acc := c.AllAccounts()
+	check(len(acc[storeAddr].Storage) == 1, "store contract storage: %d slots", len(acc[storeAddr].Storage))
+	check(c.Balance(revertAddr).Sign() == 0, "reverting call kept value")
+	check(c.Balance(D.Addr).Cmp(txkit.LKC(5)) == 0, "self-destruct beneficiary has %s", c.Balance(D.Addr))
+	_, sdThere := acc[sdAddr]
+	check(!sdThere, "self-destructed contract still in the state")
+	check(c.TokenBalance(A.Addr, issuerAddr).Cmp(txkit.LKC(650)) == 0, "issuer: A holds %s", c.TokenBalance(A.Addr, issuerAddr))
+	check(c.TokenBalance(B.Addr, issuerAddr).Cmp(txkit.LKC(100)) == 0, "issuer: B holds %s", c.TokenBalance(B.Addr, issuerAddr))
+	check(c.Nonce(A.Addr) == 14, "nonce of A %d", c.Nonce(A.Addr))
+	rs := c.Receipts(2)
+	check(len(rs) == len(b2) && rs[1].Status == types.ReceiptStatusFailed && rs[6].Status == types.ReceiptStatusFailed && rs[0].Status == types.ReceiptStatusSuccessful,
+		"receipt statuses of block 2")
+	check(len(rs[3].Logs) == 1 && blk2.Header.Bloom() != (types.Bloom{}), "log/bloom")
+	check(c.KeyImageSpent(w.led.Owned[0].KeyImage), "key image of the spent output not recorded")
+	_ = balA
+
+	// ---- block 3: through the mempool: MLSAG spend, U->A, plus the "bad" variants that must not get in --------------
+	mp := c.Mempool()
+	spend3, err := w.kit.Transfer(w.led, txkit.W0, w.led.Spendable(txkit.W0)[:1], 3, []txkit.Dest{txkit.ToWallet(txkit.W1, 2, txkit.LKC(20))}, 0)
+	must(err)
+	uout, amt, err := w.kit.ToAccountAll(w.led, txkit.W1, w.led.Spendable(txkit.W1)[:1], 1, C.Addr)
+	must(err)
+	good := []types.Tx{
+		txkit.Transfer(B, 1, C.Addr, txkit.LKC(3)),
+		txkit.Transfer(B, 2, A.Addr, txkit.LKC(4)),
+		spend3, uout,
+	}
+	dbl, err := w.kit.Transfer(w.led, txkit.W0, w.led.Owned[1:2], 1, []txkit.Dest{txkit.ToWallet(txkit.W2, 0, txkit.LKC(1))}, 0) // same output as spend3
+	must(err)
+	twice, err := w.kit.SameKeyImageTwice(w.led, txkit.W2, w.led.Spendable(txkit.W2)[0])
+	must(err)
+	type badCase struct {
+		name string
+		tx   types.Tx
+		want error // nil: any error
+	}
+	bad := []badCase{
+		{"duplicate (same tx again)", good[0], types.ErrTxDuplicate},
+		{"stale nonce", txkit.StaleNonce(B, 1, C.Addr, txkit.LKC(1)), types.ErrNonceTooLow},
+		{"underfunded", txkit.Underfunded(C, 1, A.Addr, c.Balance(C.Addr)), types.ErrInsufficientFunds},
+		{"oversized", txkit.Oversized(C, 1, A.Addr), types.ErrOversizedData},
+		{"double spend of a pooled output", dbl, types.ErrUtxoTxDoubleSpend},
+		{"same key image twice", twice, types.ErrCheckDupKeyImage},
+	}
+	for _, t := range txkit.Tampers(spend3, nil) {
+		if t.Name != "ecdh-amount" {
+			bad = append(bad, badCase{"tampered " + t.Name, t.Tx, nil})
+		}
+	}
+	for _, t := range txkit.Tampers(ain2, C) {
+		if t.Name != "ecdh-amount" {
+			bad = append(bad, badCase{"tampered A->U " + t.Name, t.Tx, nil})
+		}
+	}
+	for _, t := range good {
+		check(mp.AddTx("", txkit.WireCopy(t)) == nil, "mempool refused a good transaction")
+	}
+	future := txkit.FutureNonce(B, 3, 1, C.Addr, txkit.LKC(1)) // B's pending nonce is 3: nonce 4 is queued, not reaped
+	check(mp.AddTx("", future) == nil, "future nonce not queued")
+	rejected := 0
+	for _, bc := range bad {
+		err := mp.AddTx("", bc.tx)
+		if err == nil {
+			fail("mempool accepted: %s", bc.name)
+		} else if bc.want != nil && err != bc.want {
+			fail("mempool: %s: got %v, want %v", bc.name, err, bc.want)
+		} else {
+			rejected++
+		}
+	}
+	dup := txkit.DuplicateNonce(B, 1, C.Addr, txkit.LKC(3)) // conflicting twin of good[0]: nonce already used in the pool's view
+	check(mp.AddTx("", dup) == types.ErrNonceTooLow, "conflicting twin accepted")
+	view := mempoolSizes(c)
+	w.note("mempool: %s; %d hostile transactions refused", view, rejected+1)
+	b3, err := c.StepFromMempool(0)
+	must(err)
+	same(c, r, "block 3")
+	w.led.Sync(c)
+	check(len(b3.Data.Txs) == len(good), "block 3 has %d txs", len(b3.Data.Txs))
+	check(c.Balance(C.Addr).Sign() > 0 && amt.Sign() > 0, "U->A")
+	w.note("block 3 from the mempool: %d txs (MLSAG ring 3, U->A %s), state %s, hidden %s, pool after: %s", len(b3.Data.Txs), amt, short(c.StateHash()),
+		w.led.Unspent(common.EmptyAddress), mempoolSizes(c))
+
+	// a block that CheckBlock must refuse: committed key image again / tampered confidential tx, built by a dishonest proposer
+	for _, t := range []struct {
+		name string
+		tx   types.Tx
+	}{{"respend of a committed output", dbl}, {"tampered commitment", txkit.Tampers(spend3, nil)[0].Tx}} {
+		blk, _, err := c.Propose(types.Txs{t.tx}, false, 0, minichain.BlockOpts{SkipPreRun: true})
+		must(err)
+		check(!r.CheckBlock(minichain.CloneBlock(blk)), "replica accepted a block with: %s", t.name)
+	}
+
+	// ---- conservation (what C06 will do properly) -------------------------------------------------------------------------
+	sup := c.Supply()
+	total := new(big.Int).Add(sup[common.EmptyAddress], w.led.Unspent(common.EmptyAddress))
+	check(total.Cmp(initial) == 0, "coin supply: accounts %s + hidden %s != initial %s", sup[common.EmptyAddress], w.led.Unspent(common.EmptyAddress), initial)
+	check(sup[issuerAddr] != nil && sup[issuerAddr].Cmp(txkit.LKC(750)) == 0, "issued token supply %v", sup[issuerAddr])
+	check(len(c.Unattributed()) == 0, "%d unattributed accounts", len(c.Unattributed()))
+	w.note("supply: accounts %s + hidden %s = initial; issued token %s; fee collector %s", sup[common.EmptyAddress], w.led.Unspent(common.EmptyAddress),
+		sup[issuerAddr], c.Balance(cfg.ContractFoundationAddr))
+
+	// ---- restart on the same databases --------------------------------------------------------------------------------
+	before := [3]common.Hash{c.StateHash(), c.StateRoot(), c.LoadBlock(3).Hash()}
+	c2, err := c.Restart()
+	must(err)
+	w.c, c = c2, c2
+	check(c.Height() == 3 && before == [3]common.Hash{c.StateHash(), c.StateRoot(), c.LoadBlock(3).Hash()}, "state after restart")
+	check(c.Status().LastBlockHeight == 3 && !c.RebuiltStatus, "status after restart")
+	w.step(types.Txs{txkit.Transfer(C, 1, D.Addr, txkit.LKC(1))}, "after restart")
+
+	// ---- a third node catches up through the fast-sync path (blocks as stored, part sets rebuilt from the decoded blocks) ----
+	fs, err := minichain.New(ropts)
+	must(err)
+	for h := uint64(1); h <= c.Height(); h++ {
+		next := c.BlockStore().LoadBlockCommit(h) // = LastCommit of block h+1
+		if next == nil {
+			next = c.BlockStore().LoadSeenCommit(h)
+		}
+		if err := fs.CommitFastSync(c.LoadBlock(h), next); err != nil {
+			fail("fast sync of block %d: %v", h, err)
+			break
+		}
+	}
+	fs.Track(c.Universe()...)
+	same(c, fs, "fast-synced node")
+	fs.Close()
+
+	if rec != nil {
+		printWrites(rec, w)
+	}
+	return w
+}
+
+// probes reproduces the repository behaviours listed in README.md under "Observed repo behaviours".
+func probes() {
+	fmt.Println("== observed repo behaviours ==")
+	A, B, C := txkit.A, txkit.B, txkit.C
+	// 1. the transfer journal saved for a block is the journal of the block that was EXECUTED last, not of the block committed
+	p, err := minichain.New(minichain.Options{Alloc: txkit.Alloc(nil)})
+	must(err)
+	x, xparts, err := p.MakeBlock(types.Txs{txkit.Transfer(A, 0, B.Addr, txkit.LKC(1))})
+	must(err)
+	y, _, err := p.MakeBlock(types.Txs{txkit.Transfer(A, 0, C.Addr, txkit.LKC(2))})
+	must(err)
+	okx, oky := p.CheckBlock(x), p.CheckBlock(y) // a validator prevotes on proposal X (round 0), later on proposal Y (round 1) ...
+	must(p.Commit(x, xparts))                    // ... and X is the one that gets +2/3 precommits
+	jr := p.BalanceRecords().Get(1)
+	if okx && oky && jr != nil && len(jr.TxRecords) == 1 {
+		got := jr.TxRecords[0].Hash
+		fmt.Printf("  balance_record[1]: block hash %s (committed X=%s), journal of tx %s (X holds %s, Y holds %s): journal belongs to %s\n", short(jr.BlockHash), short(x.Hash()),
+			short(got), short(x.Data.Txs[0].Hash()), short(y.Data.Txs[0].Hash()), map[bool]string{true: "X (consistent)", false: "Y (NOT the committed block)"}[got == x.Data.Txs[0].Hash()])
+	} else {
+		fmt.Println("  balance_record probe did not run as expected")
+	}
+	// 2. receipts of successful MultiSignAccountTx are the zero Receipt (Status 0 = "failed")
+	var signers []txkit.ValidatorSigner
+	for _, k := range p.Fixture().Keys[:3] {
+		signers = append(signers, txkit.SignerOf(k))
+	}
+	_, err = p.Step(types.Txs{txkit.MultiSign(0, types.TxContractCreateType, 10, []*types.SignerEntry{{Power: 10, Addr: A.Addr}}, signers)})
+	must(err)
+	fmt.Printf("  MultiSignAccountTx executed (nonce of the multi-sign account %d), receipt status %d, tx hash in receipt %s\n", p.Nonce(types.MultiSignNonceAddr),
+		p.Receipts(2)[0].Status, short(p.Receipts(2)[0].TxHash))
+	// 3. StateHash commits to the update set of the block, not to the state: all empty blocks have the same one, in both modes
+	b3, err := p.Step(nil)
+	must(err)
+	b4, err := p.Step(nil)
+	must(err)
+	fmt.Printf("  StateHash after two empty blocks on different states: %s / %s (= keccak256(\"\") %v)\n", short(p.TxsResultHash(b3.Height)), short(p.TxsResultHash(b4.Height)),
+		p.StateHash() == common.HexToHash("0xc5d2460186f7233c927e7db2dcc703c0e500b653ca82273b7bfad8045d85a470"))
+	p.Close()
+}
+
+func mempoolSizes(c *minichain.Chain) string {
+	spec, pending, queued := c.Mempool().Stats()
+	return fmt.Sprintf("good+utxo %d, special %d, future %d", pending, spec, queued)
+}
+
+func printWrites(rec *kv.Recorder, w *world) {
+	c := w.c
+	// first a block with confidential transactions (they are the only ones that touch the three utxo databases) ...
+	ain, err := w.kit.AccountToUTXO(txkit.A, c.Nonce(txkit.A.Addr), []txkit.Dest{txkit.ToWallet(txkit.W2, 1, txkit.LKC(5))}, nil)
+	must(err)
+	spend, err := w.kit.Transfer(w.led, txkit.W0, w.led.Spendable(txkit.W0)[:1], 1, []txkit.Dest{txkit.ToWallet(txkit.W2, 0, txkit.LKC(1))}, 0)
+	must(err)
+	from := rec.Len()
+	_, err = c.Step(types.Txs{ain, spend})
+	must(err)
+	w.led.Sync(c)
+	fmt.Printf("  write units of one Commit (block with 1 A->U and 1 U->U, %s mode):\n", mode(w.trie))
+	dumpUnits(rec.Log[from:])
+	// ... then the block whose crash states are tried below
+	from = rec.Len()
+	rec.SetTag("demo")
+	_, err = c.Step(types.Txs{txkit.Transfer(txkit.A, c.Nonce(txkit.A.Addr), txkit.B.Addr, txkit.LKC(1))})
+	must(err)
+	fmt.Printf("  write units of one Commit (block with 1 transfer, %s mode):\n", mode(w.trie))
+	dumpUnits(rec.Log[from:])
+	crashStates(rec, w, from)
+}
+
+func dumpUnits(units []kv.Unit) {
+	for i, u := range units {
+		var keys []string
+		size := 0
+		for _, op := range u.Ops {
+			k := string(op.Key)
+			if !printable(k) {
+				k = fmt.Sprintf("0x%x", op.Key)
+				if len(k) > 14 {
+					k = k[:14] + ".."
+				}
 			}
-			fmt.Println(trie, b.Height, b.Hash().Hex(), c.StateHash().Hex(), c.StateRoot().Hex())
+			if op.Kind == kv.OpDelete {
+				k = "-" + k
+			}
+			keys = append(keys, k)
+			size += len(op.Value)
 		}
-		fmt.Println(len(c.AllAccounts()), len(c.Unattributed()), c.Supply())
+		if len(keys) > 6 {
+			keys = append(keys[:6], fmt.Sprintf("... (%d ops)", len(u.Ops)))
+		}
+		kind := "set  "
+		if len(u.Ops) > 1 {
+			kind = "batch"
+		}
+		sync := ""
+		if u.Sync {
+			sync = " sync"
+		}
+		fmt.Printf("    %2d %-16s %s%s %5dB  %s\n", i, u.DB, kind, sync, size, strings.Join(keys, " "))
+	}
+}
+
+// crashStates: every prefix of the last commit is a crash state the node must restart from.
+func crashStates(rec *kv.Recorder, w *world, from int) {
+	c := w.c
+	n := rec.Len()
+	okN, rebuilt := 0, 0
+	for cut := from; cut <= n; cut++ {
+		dir, err := minichain.NewWalDir("")
+		must(err)
+		must(minichain.PutWal(dir, c.WalBytes())) // NB a real crash harness snapshots the file at the cut, see README
+		rc, err := c.RestartOnCopies(rec.Materialize(cut), dir)
+		if err == nil {
+			okN++
+			if rc.RebuiltStatus {
+				rebuilt++
+			}
+			rc.Close()
+		}
+		os.RemoveAll(dir)
+	}
+	fmt.Printf("  restart from each of the %d prefixes of that commit: %d started (%d through the rebuild-status path)\n", n-from+1, okN, rebuilt)
+}
+
+func printable(s string) bool {
+	if s == "" {
+		return false
+	}
+	for _, r := range s {
+		if r < 0x20 || r > 0x7e {
+			return false
+		}
+	}
+	return true
+}
+
+func bench() {
+	fmt.Println("== costs ==")
+	for _, trie := range []bool{false, true} {
+		const n = 200
+		t0 := time.Now()
+		var cs []*minichain.Chain
+		for i := 0; i < n; i++ {
+			c, err := minichain.New(minichain.Options{IsTrie: trie, Alloc: txkit.Alloc(nil)})
+			must(err)
+			cs = append(cs, c)
+		}
+		perNew := time.Since(t0) / n
+		t0 = time.Now()
+		for _, c := range cs {
+			c.Close()
+		}
+		perClose := time.Since(t0) / n
+		c, err := minichain.New(minichain.Options{IsTrie: trie, Alloc: txkit.Alloc(nil)})
+		must(err)
+		t0 = time.Now()
+		for i := 0; i < n; i++ {
+			_, err := c.Step(nil)
+			must(err)
+		}
+		perEmpty := time.Since(t0) / n
+		txs := make([]types.Tx, n)
+		for i := range txs {
+			txs[i] = txkit.Transfer(txkit.A, uint64(i), txkit.B.Addr, txkit.LKC(1))
+		}
+		t0 = time.Now()
+		for i := 0; i < n; i++ {
+			_, err := c.Step(types.Txs{txs[i]})
+			must(err)
+		}
+		perTransfer := time.Since(t0) / n
+		// confidential: build m A->U, then m U->U spends
+		const m = 20
+		kit, led := txkit.NewKit(3), txkit.NewLedger()
+		t0 = time.Now()
+		ains := make([]types.Tx, m)
+		for i := range ains {
+			tx, err := kit.AccountToUTXO(txkit.B, uint64(i), []txkit.Dest{txkit.ToWallet(txkit.W0, 0, txkit.LKC(100))}, nil)
+			must(err)
+			ains[i] = tx
+		}
+		buildAin := time.Since(t0) / m
+		t0 = time.Now()
+		for i := range ains {
+			_, err := c.Step(types.Txs{ains[i]})
+			must(err)
+		}
+		perAin := time.Since(t0) / m
+		led.Sync(c)
+		var perUin1, perUin3, build1, build3 time.Duration
+		for _, ring := range []int{1, 3} {
+			var bt, st time.Duration
+			for i := 0; i < m/2; i++ {
+				t0 = time.Now()
+				tx, err := kit.Transfer(led, txkit.W0, led.Spendable(txkit.W0)[:1], ring, []txkit.Dest{txkit.ToWallet(txkit.W1, 0, txkit.LKC(1))}, 1)
+				must(err)
+				bt += time.Since(t0)
+				t0 = time.Now()
+				_, err = c.Step(types.Txs{tx})
+				must(err)
+				st += time.Since(t0)
+				led.Sync(c)
+			}
+			if ring == 1 {
+				perUin1, build1 = st/(m/2), bt/(m/2)
+			} else {
+				perUin3, build3 = st/(m/2), bt/(m/2)
+			}
+		}
+		t0 = time.Now()
+		for i := 0; i < 20; i++ {
+			c2, err := c.Restart()
+			must(err)
+			c = c2
+		}
+		perRestart := time.Since(t0) / 20
+		t0 = time.Now()
+		rp, err := c.Replica()
+		must(err)
+		replica := time.Since(t0)
+		fmt.Printf("  %s: New %v, Close %v, Step(empty) %v, Step(1 transfer) %v, Step(1 A->U) %v [build %v], Step(1 U->U ring 1) %v [build %v], Step(1 U->U ring 3) %v [build %v], Restart %v, Replica() replaying %d blocks %v\n",
+			mode(trie), perNew, perClose, perEmpty, perTransfer, perAin, buildAin, perUin1, build1, perUin3, build3, perRestart, c.Height(), replica)
+		rp.Close()
 		c.Close()
 	}
-	fmt.Println(minichain.RecipeFingerprintOK())
+}
+
+func main() {
+	flag.Parse()
+	log.Root().SetHandler(log.DiscardHandler())
+	if os.Getenv("ZMINI_LOG") != "" {
+		log.Root().SetHandler(log.LvlFilterHandler(log.LvlWarn, log.StdoutHandler))
+	}
+	fmt.Printf("restart recipe fingerprint (node/node.go): ok=%v\n", minichain.RecipeFingerprintOK())
+	flat := run(false)
+	trie := run(true)
+	// the two storage modes must tell the same story (only the trie root differs, and it is not in the summary)
+	if strings.Join(flat.summary, "\n") != strings.Join(trie.summary, "\n") {
+		fail("flat and trie mode diverge")
+		for i := range flat.summary {
+			if i < len(trie.summary) && flat.summary[i] != trie.summary[i] {
+				fmt.Println("    flat:", flat.summary[i], "\n    trie:", trie.summary[i])
+			}
+		}
+	} else {
+		fmt.Println("== flat and trie mode agree on every block hash-relevant value ==")
+	}
+	fmt.Printf("final: flat height %d state %s root %s | trie height %d state %s root %s\n", flat.c.Height(), short(flat.c.StateHash()), short(flat.c.StateRoot()),
+		trie.c.Height(), short(trie.c.StateHash()), short(trie.c.StateRoot()))
+	var names []string
+	for n := range flat.c.DBs() {
+		names = append(names, n)
+	}
+	sort.Strings(names)
+	fmt.Println("databases:", strings.Join(names, " "), "+ file", minichain.WalFileName)
+	flat.c.Close()
+	trie.c.Close()
+	probes()
+	if *flagBench {
+		bench()
+	}
+	if failed {
+		fmt.Println("zminichain: FAILED")
+		os.Exit(2)
+	}
+	fmt.Println("zminichain: ok")
 }
